@@ -9,6 +9,9 @@ pub fn linspace(x0: f64, xend: f64, n: usize) -> Vec<f64> {
 }
 
 pub fn find_nearest_index(arr: &[f64], target: f64) -> Result<usize, String> {
+    if arr.len() == 1 {
+        return Err("Could not find a grid cell, arr has a single grid value".to_string());
+    }
     if &target
         == arr
             .last()
